@@ -17,6 +17,7 @@ def check(run):
             run.rule("C17-count", "report.cells / concrete_cells = product over every dimension of the number of (concrete) groups, multi-methods only", floor=4)
         crules.cellcount_rules(run, "C17-count", ast)
         crules.group_concrete_rules(run, "C17-count", ast)
+        crules.abstract_flag_rules(run, "C17-count", ast)
         # the cells being counted are the cells built: what decides a gap / an ambiguity for a tuple of classes
         if "C17-resolution" not in run.rules:
             run.rule("C17-resolution", "a tuple is a gap / an ambiguity as C01 defines it: specificity table, elimination step, applicability by covariant set, every listed base merged", floor=10)
